@@ -7,7 +7,7 @@ STATIC = ["Base/Syntax.v", "Model/PyNum.v", "Model/IR.v", "Model/VM.v", "Model/E
           "Proofs/LowerExprProofs.v", "Proofs/ElabExprProofs.v", "Proofs/ReturnExprProofs.v", "Proofs/CallAgreeProofs.v", "Proofs/ReturnExprExample.v", "Harness/FragLib.v",
           "Proofs/LowerStmtProofs.v", "Proofs/ElabStmtProofs.v", "Proofs/StraightLineProofs.v", "Proofs/StraightLineExample.v", "Harness/FragLib2.v", "Proofs/FlowLowerProofs.v", "Proofs/FlowFuncProofs.v", "Harness/FlowLib.v",
           "Proofs/FlowElabProofs.v", "Proofs/FlowTableProofs.v", "Proofs/FlowSimProofs.v", "Proofs/FlowSimExample.v", "Harness/FlowLib2.v",
-          "Proofs/LoopLowerProofs.v", "Proofs/LoopElabProofs.v", "Proofs/LoopSimProofs.v", "Proofs/LoopSimExample.v", "Proofs/DoSimExample.v", "Harness/LoopLib.v"]
+          "Proofs/LoopLowerProofs.v", "Proofs/LoopElabProofs.v", "Proofs/LoopSimProofs.v", "Proofs/LoopSimExample.v", "Proofs/DoSimExample.v", "Proofs/ForLowerExample.v", "Harness/LoopLib.v"]
 
 
 def gen_programs(ctx, n):
@@ -152,7 +152,7 @@ def loop_programs(ctx, n):
     """functions with while and do loops at the top level (between declarations, assignments and conditionals): a counter declared before the loop,
     a pure condition on it, a body of assignments and nested conditionals that does not assign the counter, the increment last -- the fragment
     of theorem C01_loop_functions_partial"""
-    from nslgen import Module, Global, Func, Arg, Block, Ret, B, V, Decl, ES, A, If, While, Do, I
+    from nslgen import Module, Global, Func, Arg, Block, Ret, B, V, Decl, ES, A, If, While, Do, For, I
     rng = ctx.rng
     out = []
     for k in range(n):
@@ -192,8 +192,14 @@ def loop_programs(ctx, n):
                 bound = rng.choice([I(2), I(3), B("%", B("*", V("a"), V("a")), I(4)), I(0)])
                 inner = [assign() if rng.random() < 0.6 else cond(1) for _ in range(rng.choice([1, 2]))]
                 lbody = Block(inner + [ES(A(V(i), B("+", V(i), I(1))))])
-                # two loops in five are do loops: the body runs once before the condition is evaluated, also when the bound is 0
-                body.append(Do(lbody, B("<", V(i), bound)) if rng.random() < 0.4 else While(B("<", V(i), bound), lbody))
+                # a quarter of the loops are for loops with the counter declared in the header (the typed-level theorem); of the others two in five are do
+                # loops: the body runs once before the condition is evaluated, also when the bound is 0
+                kind_ = rng.random()
+                if kind_ < 0.25:
+                    body.pop(); del env.vars[i]       # the counter lives in the header, it is not visible after the loop
+                    body.append(For(Decl("int", i, I(0)), B("<", V(i), bound), A(V(i), B("+", V(i), I(1))), Block(inner)))
+                else:
+                    body.append(Do(lbody, B("<", V(i), bound)) if kind_ < 0.55 else While(B("<", V(i), bound), lbody))
                 nloops += 1
         rt = rng.choice(["int", "float"]) if k % 3 != 0 else "int"
         body.append(Ret(tg_expr(g, env, rt)))
@@ -361,7 +367,7 @@ def run(ctx):
         if k >= conv_from:
             pass
         elif k >= loop_from:
-            e = "(%s + 1000 * (300000000 + loop_case M_%d))" % (e, k)
+            e = "(%s + 1000 * (300000000 + loop_case M_%d + 1000000000 * loop_lower_case M_%d))" % (e, k, k)
         elif k >= flow_from:
             e = "(%s + 1000 * (200000000 + flow_case2 M_%d))" % (e, k)
         elif k >= straight_from:
@@ -378,6 +384,7 @@ def run(ctx):
     frag = {"functions": 0, "inside_proved_fragment": 0, "literal_test_passed": 0}
     sfrag = {"functions": 0, "inside_proved_fragment": 0, "literal_test_passed": 0, "lowered_ir_also_in_forwarding_fragment": 0}
     lfrag = {"functions": 0, "inside_end_to_end_fragment_literals_exact": 0, "of_which_with_a_loop": 0, "of_which_with_a_do_loop": 0}
+    tfrag = {"functions": 0, "inside_typed_lowering_fragment": 0, "of_which_with_a_for_loop": 0}
     ffrag = {"functions": 0, "inside_lowering_fragment": 0, "of_which_with_a_conditional": 0, "inside_end_to_end_fragment_literals_exact": 0}
     for x, c in zip(meta, codes):
         if c is None:
@@ -385,6 +392,9 @@ def run(ctx):
         if c >= 1000:
             fc = c // 1000
             c = c % 1000
+            if fc >= 1000000000:      # typed-level loop fragment (while, do, for): functions, inside, with a for loop
+                tc, fc = fc // 1000000000, fc % 1000000000
+                tfrag["functions"] += tc // 10000; tfrag["inside_typed_lowering_fragment"] += (tc // 100) % 100; tfrag["of_which_with_a_for_loop"] += tc % 100
             if fc >= 300000000:
                 fc -= 300000000
                 lfrag["functions"] += fc // 1000000; lfrag["inside_end_to_end_fragment_literals_exact"] += (fc // 10000) % 100
@@ -423,6 +433,7 @@ def run(ctx):
     stats["straight_line_functions"] = sfrag
     stats["conditional_functions"] = ffrag
     stats["loop_functions"] = lfrag
+    stats["loop_functions_typed_level"] = tfrag
     ctx.extra["input_distribution"] = stats
     ctx.extra["disagreements_checked"] = len(codes)
     if bad_spec or direct_bad:
